@@ -1449,6 +1449,9 @@ func (c *Compiler) writeNodeReset(node *node, v string, depth int) error {
 					pfx = ""
 				}
 				c.wl(nv, ":=", pfx, c.fmtVd(node, v, depth), "[i]")
+				if node.slct.ptr {
+					c.wl("if ", nv, "==nil{continue}")
+				}
 				_ = c.writeNodeReset(node.slct, nv, depth+1)
 				c.wl("}")
 			}
